@@ -611,6 +611,15 @@ class Evaluator:
                 if a.is_const() and b.is_const():
                     return (a.const != b.const) if neg else (a.const == b.const)
                 return BoolVal(f"{a!r} {'!=' if neg else '=='} {b!r}", {"cmp": ("ne" if neg else "eq", a, b)})
+        if isinstance(op, (ast.Lt, ast.LtE, ast.Gt, ast.GtE)):
+            try:
+                la, lb = self.as_lin(a, e.left), self.as_lin(b, e.comparators[0])
+            except Unsupported:
+                return BoolVal(unparse(e))
+            name = {ast.Lt: "lt", ast.LtE: "le", ast.Gt: "gt", ast.GtE: "ge"}[type(op)]
+            if la.is_const() and lb.is_const():
+                return {"lt": la.const < lb.const, "le": la.const <= lb.const, "gt": la.const > lb.const, "ge": la.const >= lb.const}[name]
+            return BoolVal(unparse(e), {"cmp": (name, la, lb)})
         return BoolVal(unparse(e))
 
     def truth(self, v: t.Any, node: ast.AST, st: State) -> t.Union[bool, BoolVal]:
@@ -817,6 +826,24 @@ class Evaluator:
             return None
         if dotted == "isinstance":
             return BoolVal(unparse(e))
+        # ---- in-place growth of a local byte buffer: b.append(x) / b.extend(y) / b.reverse()
+        if isinstance(fn, ast.Attribute) and isinstance(fn.value, ast.Name) and isinstance(st.env.get(fn.value.id), SBytes) and fn.attr in ("append", "extend", "reverse"):
+            cur = st.env[fn.value.id]
+            if fn.attr == "append" and len(e.args) == 1:
+                v = self.as_lin(self.eval(e.args[0], st), e.args[0])
+                add = SBytes([Seg("int", Lin(1), value=v, order="little", signed=False, node=e)])
+            elif fn.attr == "extend" and len(e.args) == 1:
+                add = self.as_bytes(self.eval(e.args[0], st), e.args[0])
+            else:
+                add = None
+            if add is not None:
+                loops = getattr(st, "loops", [])
+                if loops and fn.value.id in loops[-1].deltas:
+                    loops[-1].deltas[fn.value.id] = loops[-1].deltas[fn.value.id] + add
+                st.env[fn.value.id] = cur + add
+                return None
+            st.env[fn.value.id] = SBytes([Seg("reversed", cur.length(), body=cur.segs)]) if cur.segs else cur
+            return None
         # ---- methods on values
         if isinstance(fn, ast.Attribute):
             base = self.eval(fn.value, st)
